@@ -74,20 +74,28 @@ OverflowClass(r) ==
   ELSE IF r.stalled # SubSeq(r.healthy, 1, r.buf) THEN "typed-stalled-not-first-buffer"
   ELSE ""
 
-VARIABLE i
-Init == i = 1
+\* sigs: scenario seed -> the package that ran it first and the type-independent signature of what it observed.
+\* The twelve packages are instances of one template: on the same scenario they observe the same thing.
+VARIABLES i, sigs
+Init == i = 1 /\ sigs = <<>>
+IsSigRec(r) == r.k = "typed.snap" /\ r.tag = "end" /\ r.quiet
+Deviates(r) == IsSigRec(r) /\ r.seed \in DOMAIN sigs /\ sigs[r.seed].sig # r.sig
 Next == /\ i <= Len(Recs)
         /\ LET r == Recs[i]
-               c == CASE r.k = "typed.snap" -> SnapClass(r)
+               c0 == CASE r.k = "typed.snap" -> SnapClass(r)
                       [] r.k = "typed.req" -> ReqClass(r)
                       [] r.k = "typed.mon" -> MonClass(r)
                       [] r.k = "typed.overflow" -> OverflowClass(r)
                       [] r.k = "typed.reqcount" -> "typed-request-count"
                       [] r.k = "typed.end" -> (IF r.leak # 0 THEN "typed-leak" ELSE "")
                       [] r.k = "typed.error" -> "typed-error"
-                      [] OTHER -> "" IN
-           IF c = "" THEN TRUE ELSE PrintT(<<"VERDICT", i, c, r>>)
+                      [] OTHER -> ""
+               c == IF c0 \in {"", "typed-monitor-nil-callback"} /\ Deviates(r) THEN "typed-package-deviates" ELSE c0 IN
+           /\ IF c = "" THEN TRUE
+              ELSE IF c = "typed-package-deviates" THEN PrintT(<<"VERDICT", i, c, [pkg |-> r.pkg, seed |-> r.seed, sig |-> r.sig, other |-> sigs[r.seed]]>>)
+              ELSE PrintT(<<"VERDICT", i, c, r>>)
+           /\ sigs' = IF IsSigRec(r) /\ r.seed \notin DOMAIN sigs THEN (r.seed :> [pkg |-> r.pkg, sig |-> r.sig]) @@ sigs ELSE sigs
         /\ i' = i + 1
-Spec == Init /\ [][Next]_i
+Spec == Init /\ [][Next]_<<i, sigs>>
 Done == (i = Len(Recs) + 1) => PrintT(<<"CONSUMED", Len(Recs)>>)
 =============================================================================
